@@ -232,6 +232,7 @@ def run(ctx):
                                         inner_ok = False
                     ok = inner_ok and not any(re.search(r'Iterator::(rev|skip|take|filter|step_by|last|nth|max|min)$|::sort|::dedup', c_) for c_ in chain) and any(c_.endswith('Iterator::flat_map') for c_ in chain)
         ctx.ob(['C14'], 'R-ITER', 'C14-D5|%ss-complete-in-order' % nm, ok, 'all %ss of all rust backend blocks are joined in source order, none dropped: %s' % (nm, det), where)
+    module_new(ctx)
     # ---- G13 extern value without address (C15-D2)
     am = [f for f in P.fns.values() if f.id.endswith('SemanticState::add_module')]
     if am:
@@ -269,3 +270,51 @@ def run(ctx):
             sty, src = loop_source(f, L[0])
             ok = sty == "std::slice::IterMut<'_, semantic::types::ExternValue>" and any(g.kind == 'reject' and g.pred[0] == 'fails' and find_calls(g.pred, 'resolve_grammar_type') for g in guards_of(f))
         ctx.ob(['C10', 'C15'], 'R-ITER', 'REV|every-extern-value-resolved', ok, 'every extern value\'s type is resolved after all types; failure to resolve is an error', loc(f.span))
+
+
+# appended: Module::new (backend blocks, doc) ------------------------------------------------------
+def module_new(ctx):
+    P = ctx.prog
+    mn = [f for f in P.fns.values() if f.id.endswith('module::Module::new')]
+    if not mn:
+        ctx.fail_closed(['C14', 'C17'], 'R-ANCHOR', 'MN', 'Module::new not found')
+        return
+    f = mn[0]
+    where = loc(f.span)
+    ok_ = [x for x in f.exits() if x['kind'] == 'ok']
+    m = dict(ok_[0]['expr'][2][0][1][2]) if ok_ and ok_[0]['expr'][2][0][1][0] == 'agg' else None
+    if not m:
+        ctx.fail_closed(['C14', 'C17'], 'R-ANCHOR', 'MN|exit', 'Module literal not found', where)
+        return
+    # backends: every grammar backend, in order, grouped by its own name, prologue→prologue, epilogue→epilogue
+    pushes = [c for c in f.calls(lambda r: r['path'] and r['path'].endswith('Vec::<T, A>::push'))]
+    okb = False
+    det = ''
+    if len(pushes) == 1:
+        c = pushes[0]
+        L = innermost_loop(f, c['block'])
+        sty, src = loop_source(f, L) if L else (None, None)
+        tgt = f.expr_of_operand(c['term']['args'][0])
+        val = f.expr_of_operand(c['term']['args'][1])
+        det = show(val)[:160]
+        ent = [x for x in walk(tgt) if isinstance(x, tuple) and x[0] == 'call' and re.search(MAPM('entry'), x[1])]
+        key_ok = bool(ent) and any(isinstance(y, tuple) and y[0] == 'field' and y[2] == 'name' for y in walk(ent[0][2][1])) and strip(ent[0][2][0]) == strip(m['backends'])
+        fld = lambda e, n: strip(e)[0] == 'field' and strip(e)[2] == n and any(is_call(y, 'Iterator::next') for y in walk(e))
+        lit_ok = val[0] == 'agg' and val[1].endswith('types::Backend') and fld(dict(val[2])['prologue'], 'prologue') and fld(dict(val[2])['epilogue'], 'epilogue')
+        okb = bool(L) and sty == "std::slice::Iter<'_, grammar::Backend>" and not cycle_without(f, L[1], L[0], {c['block']}) and key_ok and lit_ok and strip(strip(src)[2][0])[0] == 'arg'
+    ctx.ob(['C14'], 'R-ITER', 'MN|backends-grouped-in-order', okb,
+           'every backend block is appended, in source order, to the list of its own backend name, prologue as prologue and epilogue as epilogue: %s' % det, where)
+    okd = any(is_call(y, 'Attributes::doc') and strip(y[2][0])[0] == 'field' and strip(y[2][0])[2] == 'attributes' for y in walk(m['doc']))
+    md = [g for g in P.fns.values() if g.id.endswith('module::Module::doc')]
+    okd2 = bool(md) and len(md[0].exits()) == 1 and any(isinstance(y, tuple) and y[0] == 'field' and y[2] == 'doc' for y in walk(md[0].exits()[0]['expr']))
+    ctx.ob(['C17'], 'R-SLP', 'MN|module-doc', okd and okd2, 'a module\'s doc is the doc of its own module attributes, and Module::doc() returns it', where)
+    okx = strip(m['extern_values'])[0] == 'arg' and strip(m['path'])[0] == 'arg' and strip(m['ast'])[0] == 'arg'
+    ctx.ob(['C14', 'C15'], 'R-SLP', 'MN|fields', okx, 'Module::new stores the path, AST and extern values it is given', where)
+    # write_module passes the module doc as an inner (#![doc]) attribute
+    wm = [g for g in P.fns.values() if g.id.endswith('backends::rust::write_module')]
+    okw = False
+    if wm:
+        for c in wm[0].calls(lambda r: r['path'] and r['path'].endswith('doc_to_tokens')):
+            a = [wm[0].expr_of_operand(x) for x in c['term']['args']]
+            okw = a[0] == ('int', 1, 'bool') and is_call(a[1], 'Module::doc') and strip(a[1][2][0])[0] == 'arg'
+    ctx.ob(['C17', 'C14'], 'R-TMPL', 'WM|module-doc-inner', okw, 'the module doc is emitted as inner attributes (#![doc = ..]) of its own file: doc_to_tokens(true, module.doc())', loc(wm[0].span) if wm else '')
